@@ -43,7 +43,8 @@ Record cfg := { fetch_default : Z; fetch_max : Z; read_committed : bool }.
 Record pstate := { offset : Z; fetch_size : Z; hwm : Z; pref_replica : Z }.
 
 Inductive verdict := VOk | VKError (code : Z) | VIncomplete | VCtrlErr.
-Definition err_message_too_large : Z := 10.
+(* id of sarama.ErrMessageTooLarge (a plain error value, not a KError) in the harness' encoding of sendError calls *)
+Definition err_message_too_large : Z := 1000.
 
 (* ------------------------------------------------------------------ the two inner loops *)
 (* `if offset < child.offset { continue }; append; child.offset = offset + 1` over the candidates in order *)
